@@ -14,7 +14,7 @@ from models.m_str import str_bytes
 ID = 'C09'
 PROGRAMS = {'core': dict(crate='vaporetto', features=['train', 'kytea'])}
 UNIT_CAP = 150
-BUDGET_S = {'quick': 250, 'thorough': 2400}
+BUDGET_S = {'quick': 600, 'thorough': 1200}      # wall-clock safety caps (exceeding one is reported as inconclusive); typical quick runs take 1-200 s
 # type windows of 3 build the 8^6 type-score table in Predictor::new (262 144 iterations per construction): thorough tier only
 CFGS_QUICK = [(1, 1, 1, 1), (2, 2, 2, 2), (2, 2, 1, 1), (1, 1, 2, 2), (3, 2, 2, 3), (2, 3, 1, 1), (3, 3, 2, 2), (1, 2, 2, 2), (2, 1, 0, 0), (0, 0, 2, 2), (3, 1, 3, 0)]
 DICTS = {'none': ([], 4), 'a-ab': (['a', 'ab'], 1), 'words': (['b', 'ab', 'abc'], 2)}
